@@ -972,7 +972,7 @@ def spec_final_input(kind, sigs_in_script_order, m, sec, redeem_raw, witness_raw
     return [redeem_raw], [b""] + use + [witness_raw]
 
 
-ALL_SECTIONS = ("create", "sign-order", "combine-order", "reload", "finalize", "structure", "verify", "final-reload", "final-order", "create-back")
+ALL_SECTIONS = ("create", "sign-order", "combine-order", "reload", "finalize", "structure", "verify", "final-reload", "final-order", "create-back", "extract-history")
 
 
 def _msg(e):
@@ -1089,6 +1089,15 @@ def workflow(M, kind, m, n, n_in, subset, sections=ALL_SECTIONS):
             J.append(("verify", "extracted transaction does not verify", all(v.verify_input(k) for k in range(len(v.tx_ins)))))
             J.append(("verify", "extracted transaction spends other outpoints/outputs than the PSBT's",
                       spec_unsigned_tx(*fields_of(v)) == spec_unsigned_tx(*fields_of(base.tx_obj))))
+        if "extract-history" in sections:
+            # history on one object: extraction must not change the PSBT it was extracted from
+            try:
+                again = ref.serialize()
+                J.append(("extract-history", "the finalised PSBT serialises differently after final_tx() was called on it", again == fraw))
+                J.append(("extract-history", "a second final_tx() on the same object gives another transaction", ref.final_tx().serialize() == ftx_raw))
+                J.append(("extract-history", "the PSBT written after extraction does not load to the same PSBT", P.parse(M.BytesIO(again)).serialize() == fraw))
+            except Exception as e:
+                J.append(("extract-history", "after final_tx() the same PSBT object can no longer be written / loaded / extracted: " + _msg(e), False))
         if "final-reload" in sections:
             try:
                 fin = P.parse(M.BytesIO(fraw))
@@ -1248,6 +1257,9 @@ def _badsig_path(kind, m, n, utxo, nsym):
 
 def ob_badsig(kind, m, n, utxo, nsym):
     mr = sym_run(lambda: _badsig_path(kind, m, n, utxo, nsym), max_violations=2)
+    cut = len(mr["violations"]) >= 2   # exploration stopped at the candidate cap: the classes seen so far are not the whole picture
+    if cut:
+        return dict(mr, sample={"wallet": f"{kind} {m}-of-{n}", "utxo_records": utxo, "note": "exploration stopped after 2 violation candidates"})
     if "'rejected'" not in mr["classes"]:
         mr["inconclusive"].append("reachability twin: no path on which an invalid signature is refused")
     if "'accepted'" not in mr["classes"]:
